@@ -13,6 +13,7 @@ CHECKS = {
  "C03": ("for every assignment of 64-bit log times to the messages of multi-chunk files (bounded message/chunk counts) the solver shows sortedness, exactly-once, in-chunk tie order and repeatability of both time-ordered reads of the real indexed iterator", "DESIGN.md §4 C03"),
  "C04": ("for every window [start,end) with start<=end (64-bit symbolic), every log-time assignment, the enumerated topic sets, both iterators, three orders and nine spellings of the window, the solver shows the returned set is exactly the filter of the written messages", "DESIGN.md §4 C04"),
  "C10": ("for every byte string up to the stated length (length itself symbolic) each leaf parser is shown panic-free and within the allocation ceiling; (lexer step and indexed-reader units: see evidence bounds)", "DESIGN.md §4 C10"),
+ "C08": ("for every log time (64 bit), every string/payload byte and the symbolic Skip* flags on the enumerated templates and multi-chunk files (incl. chunks that hold no message), the solver shows that Writer.Statistics, the statistics record and Info.Statistics equal the aggregates of what was written, that chunk index time ranges are exact, and that Info lists every channel, schema, chunk, attachment index and metadata index the configuration keeps", "DESIGN.md §4 C08"),
 }
 
 NA = {
